@@ -367,6 +367,9 @@ example : ∃ s, R okCfg s ∧ s.snap 1 = some 1 ∧ s.destroyed = false ∧ s.s
     simp only [Option.map_some, Option.some.injEq, decide_eq_true_eq] at hrun
     exact ⟨s, run_reach_init hs, hrun⟩
 
-example : expired 65535 1 = true ∧ expired 65535 0 = false ∧ expired 7 65536 = false := by decide
+/-- the truncated test across the 16-bit wrap: fires two units later, not one; exactly 2^16 (+1) units later it
+misses (the list is then freed by the next retire / gc or by the destructor), never the other way round -/
+example : expired 65535 1 = true ∧ expired 65535 0 = false ∧ expired 7 65543 = false ∧ expired 7 65544 = false ∧
+    expired 7 65545 = true := by decide
 
 end Babylon.Properties.C04
